@@ -11,7 +11,7 @@ for i in range(n):
     c = gen.gen_cf_case(rng, kinds=kinds, warm=True)
     tr, tape, mab = mwh.run_impl(c)
     cases.append(c); traces.append(tr)
-    texts.append(("c%d" % i, mwh.case_text("c%d" % i, c, tape)))
+    texts.append(("c%d" % i, mwh.case_text("c%d" % i, c, tape, c.get("_orcs"))))
 t1 = time.time()
 res = mwh.run_model(texts, "/verif/build/work_try")
 t2 = time.time()
